@@ -327,7 +327,9 @@ def alias_discipline(check: Check) -> None:
     for n in r.cfg.stmt_nodes():
         if isinstance(n.ast, ast.Assign) and r.term(n.ast.value, n) == pk:
             guarded = any(pol and r.term(g, gn) == ("param", "qualname") for g, pol, gn in r.cfg.must_guards(n))
-    prefixed = bool(rets) and all(t[0] == "fstr" and t[1] and any(a_ == pk for a_ in (t[1][0][1] if t[1][0][0] == "phi" else [t[1][0]])) for _, t in rets)
+    gated = ("ifexp", ("param", "qualname"), pk, ("const", ""))
+    prefixed = bool(rets) and all(t[0] == "fstr" and t[1] and (t[1][0] == gated or any(a_ == pk for a_ in (t[1][0][1] if t[1][0][0] == "phi" else [t[1][0]]))) for _, t in rets)
+    guarded = guarded or (bool(rets) and all(t[0] == "fstr" and t[1] and t[1][0] == gated for _, t in rets))
     check.require(guarded and prefixed, "R5", "Operation.class_name/prefix", "qualified class names are prefixed with package_of(x) iff qualname is requested"
                   if guarded and prefixed else f"class_name returns {[show(t) for _, t in rets]}", loc(cn))
     for qual in ("Representation.repr_float", "Representation.repr_ndarray"):
@@ -352,15 +354,18 @@ def alias_discipline(check: Check) -> None:
     check.analysed(po)
     check.analysed(im)
 
+    from ..guards import RoleEval, paths
+    from ..sym import PathResolver
+
     def alias_tests(f: FunctionInfo) -> set:
-        r = Resolver(p, f)
+        r_ = Resolver(p, f)
         out = set()
-        for n in r.cfg.stmt_nodes():
+        for n in r_.cfg.stmt_nodes():
             if n.kind == "test":
-                t = r.term(n.ast, n)
-                if t == ("unop", "not", ALIAS):
+                t = r_.term(n.ast, n)
+                if t == ("unop", "not", ALIAS) or t == ALIAS:
                     out.add("no alias")
-                elif t[0] == "cmp" and t[1] == ("==",) and ALIAS in t[2]:
+                elif t[0] == "cmp" and t[1] in (("==",), ("!=",)) and ALIAS in t[2]:
                     other = [x for x in t[2] if x != ALIAS]
                     out.add(f"alias == {other[0][1]!r}" if other and other[0][0] == "const" else show(t))
         return out
@@ -369,22 +374,26 @@ def alias_discipline(check: Check) -> None:
     check.require(a == b2 == {"no alias", "alias == '*'"}, "R8", "Representation/alias-cases",
                   f"package_of and import_statement distinguish the same alias cases {sorted(a)}" if a == b2 else
                   f"package_of tests {sorted(a)}, import_statement tests {sorted(b2)}", loc(po))
-    r, rets = ret_terms(im)
+    # the statement produced for each alias, by interpreting import_statement on '', '*' and a custom alias
+    r = Resolver(p, im)
     forms = {}
-    for n, t in rets:
-        gs = []
-        for g, pol, gn in r.cfg.must_guards(n):
-            gt = r.term(g, gn)
-            if gt == ("unop", "not", ALIAS):
-                gs.append(("none", pol))
-            elif gt[0] == "cmp" and ALIAS in gt[2]:
-                gs.append(("star", pol))
-        key = "none" if ("none", True) in gs else ("star" if ("star", True) in gs else "custom")
-        forms[key] = t
-    ok = forms.get("none") == ("const", "import fuzzylite") and forms.get("star") == ("const", "from fuzzylite import *") and \
-        forms.get("custom") == ("fstr", (("const", "import fuzzylite as "), ALIAS))
+    for alias in ("", "*", "fl"):
+        ev = RoleEval(r, lambda t, e: "alias" if t == ALIAS else None)
+        outs = set()
+        for pa in paths(r.cfg, [s_ for s_, _ in r.cfg.entry.succ][0], ev, {"alias": alias}, set()):
+            end = [n for n in pa if n.kind == "stmt" and isinstance(n.ast, ast.Return)]
+            if end and end[-1].ast.value is not None:
+                pr = PathResolver(p, im, pa)
+                t = pr.at(end[-1].ast.value, pr.index_of(end[-1]))
+                while t[0] == "ifexp":
+                    cnd = ev.eval_term(t[1], {"alias": alias})
+                    t = t[2] if cnd is True else (t[3] if cnd is False else ("const", "<undecided>"))
+                outs.add(t)
+        forms[alias] = outs
+    ok = forms[""] == {("const", "import fuzzylite")} and forms["*"] == {("const", "from fuzzylite import *")} and \
+        forms["fl"] == {("fstr", (("const", "import fuzzylite as "), ALIAS))}
     check.require(ok, "R8", "Representation.import_statement/forms", "no alias -> `import fuzzylite`, '*' -> `from fuzzylite import *`, else `import fuzzylite as <alias>`"
-                  if ok else f"import forms: { {k: show(v) for k, v in forms.items()} }", loc(im))
+                  if ok else f"import forms: { {k: [show(x) for x in v] for k, v in forms.items()} }", loc(im), exhaustive=True, cases=3)
     # package_of: the prefix for library modules under each case
     r = Resolver(p, po)
     assigns = {}
